@@ -365,8 +365,8 @@ impl TransparentWrapper {
   fn get_wrapper_type(
     attributes: &[Attribute], fields: &Fields,
   ) -> Option<TokenStream> {
-    let transparent_param = get_simple_attr(attributes, "transparent");
-    transparent_param.map(|ident| ident.to_token_stream()).or_else(|| {
+    let transparent_param = get_type_attr(attributes, "transparent");
+    transparent_param.map(|ty| ty.to_token_stream()).or_else(|| {
       let mut types = get_field_types(&fields);
       let first_type = types.next();
       if let Some(_) = types.next() {
@@ -1024,21 +1024,13 @@ fn generate_fields_are_trait(
   })
 }
 
-fn get_ident_from_stream(tokens: TokenStream) -> Option<Ident> {
-  match tokens.into_iter().next() {
-    Some(TokenTree::Group(group)) => get_ident_from_stream(group.stream()),
-    Some(TokenTree::Ident(ident)) => Some(ident),
-    _ => None,
-  }
-}
-
-/// get a simple #[foo(bar)] attribute, returning "bar"
-fn get_simple_attr(attributes: &[Attribute], attr_name: &str) -> Option<Ident> {
+/// get a #[foo(Type)] attribute, returning the type `Type`
+fn get_type_attr(attributes: &[Attribute], attr_name: &str) -> Option<Type> {
   for attr in attributes {
     if let (AttrStyle::Outer, Meta::List(list)) = (&attr.style, &attr.meta) {
       if list.path.is_ident(attr_name) {
-        if let Some(ident) = get_ident_from_stream(list.tokens.clone()) {
-          return Some(ident);
+        if let Ok(ty) = syn::parse2::<Type>(list.tokens.clone()) {
+          return Some(ty);
         }
       }
     }
